@@ -88,6 +88,19 @@ def run_batch_real(params: Dict[str, Any]) -> Dict[str, Any]:
     im.deque = LoggingDeque
     old_si = sys.getswitchinterval()
     sys.setswitchinterval(params["switch"])
+    if params.get("perturb"):
+        # schedule perturbation: random sub-millisecond yields at line boundaries of the transport /
+        # job-queue modules in every thread started from here on (changes timing only)
+        prng = random.Random(params["seed"] ^ 0x5EED)
+        targets = ("transport/in_memory.py", "job_queue/worker.py", "job_queue/queue_orchestrator.py")
+
+        def _tracer(frame, event, arg):
+            if frame.f_code.co_filename.endswith(targets):
+                if event == "line" and prng.random() < params["perturb"]:
+                    time.sleep(prng.random() * 0.0004)
+                return _tracer
+            return None
+        threading.settrace(_tracer)
     out: Dict[str, Any] = {"params": params}
     try:
         transport = im.InMemorySemantivaTransport()
@@ -153,6 +166,7 @@ def run_batch_real(params: Dict[str, Any]) -> Dict[str, Any]:
     finally:
         im.deque = saved
         sys.setswitchinterval(old_si)
+        threading.settrace(None)
     return out
 
 
@@ -234,7 +248,8 @@ def check(tier: str) -> int:
         # a failing job at every position over the batches of one size, plus batches without failures
         fail_at = [] if b % 4 == 3 else sorted({b % n} | ({rng.randrange(n)} if rng.random() < 0.3 else set()))
         plist.append({"seed": core.seed() * 9973 + b, "njobs": n, "nworkers": rng.randint(1, 4),
-                      "switch": 10 ** rng.uniform(-6, -2.3), "fail_at": fail_at, "timeout": 30.0})
+                      "switch": 10 ** rng.uniform(-6, -2.3), "fail_at": fail_at, "timeout": 30.0,
+                      "perturb": [0, 0.05, 0.25][b % 3]})
     hist = []
     for chunk in pmap(batch_chunk, plist, chunk=3, tasks_per_child=4):
         hist += chunk
